@@ -544,6 +544,7 @@ def run(ctx_):
     for nm, sz in (("SSm", 8), ("SBg", 24), ("SOs", 16), ("SOb", 32)):
         kctx.structs[nm]["size"] = sz
     jobs.append(("clean", kfs, kctx, False, {}))
+    jobs.append(("clean-untyped", kfs, kctx, True, {}))
     for cls, langs, fs in witness_cases():
         jobs.append(("witness", fs, witness_ctx(fs), False, {"class": cls, "langs": langs}))
     # parameter names: every (language, colliding name, kind) of the table and a sample of names outside it
